@@ -443,7 +443,24 @@ func checkC07(c *Ctx) {
 				for encl.Parent() != nil {
 					encl = encl.Parent()
 				}
-				r.Check(encl.Name() == "NewRegisteredDecoys", "C07.7", fnName(fn)+": sendToDetector only from the closures installed by NewRegisteredDecoys", fn.Pos(), fnName(fn), "reviewed", "a detector announcement is sent outside the register/markActive path")
+				okk := encl.Name() == "NewRegisteredDecoys"
+				if !okk && fn.Parent() == nil {
+					// a named function instead of a closure: it must be one of the two functions NewRegisteredDecoys
+					// installs in registerForDetector / updateInDetector, and be used nowhere else
+					if nrd := c.P.Func(repoMod+"/"+lib, "", "NewRegisteredDecoys"); nrd != nil {
+						installed := false
+						for _, fld := range []string{"registerForDetector", "updateInDetector"} {
+							for _, st := range fieldStores(nrd, "lib.RegisteredDecoys", fld) {
+								if g, isFn := stripConv(st.Val).(*ssa.Function); isFn && g == fn {
+									installed = true
+								}
+							}
+						}
+						sites, _ := callersOf(fn)
+						okk = installed && len(sites) == 0
+					}
+				}
+				r.Check(okk, "C07.7", fnName(fn)+": sendToDetector only from the functions installed by NewRegisteredDecoys", fn.Pos(), fnName(fn), "reviewed", "a detector announcement is sent outside the register/markActive path")
 			}
 		}
 		if n == 0 {
